@@ -157,7 +157,10 @@ def run(prop, tier=None, replay=None):
     if replay:
         fams = [json.load(open(replay))["replay"]["fam"]]
     coefs = json.load(open(COEF_FILE))
-    res = pmap(measure, [{"fam": f, "sizes": sizes} for f in fams], chunksize=1, timeout=1200)
+    # expressions nested deeper than about 36 bracket levels exhaust Python's recursion limit in the expression rule chain
+    # (RecursionError: known finding KF-C06-3 of property C06, not a question of growth): these two families stop at 32
+    deep = {"nested-parens": 32, "nested-paren-sums": 32}
+    res = pmap(measure, [{"fam": f, "sizes": [n for n in sizes if n <= deep.get(f, 10 ** 9)]} for f in fams], chunksize=1, timeout=1200)
     events = []
     for f, r in zip(fams, res):
         if "__timeout__" in r or "__died__" in r:
